@@ -112,7 +112,26 @@ fn check_fault_run(run: &Run, sc: &Scenario, fr: &FaultRun, before: &BTreeMap<St
     match check_recorded_content(&raw, &sources) {
         Ok(n) => run.count("file_entries_resolved_and_compared", n),
         Err((class, detail)) => {
-            viol("recorded-content", &class, detail);
+            // one family has a signature of its own: a probe for the BANDTAIL of a band that HAS a
+            // tail was answered "not found" (together with some other fault on that band), the
+            // band passed for interrupted and an older band became the basis (known finding K2)
+            let lying_tail_probe = fr.log.iter().any(|e| {
+                e.injected
+                    && e.verb == V::Metadata
+                    && e.path.ends_with("BANDTAIL")
+                    && e.result == Some(Err(conserve::transport::ErrorKind::NotFound))
+                    && matches!(before.get(&e.path), Some(FsItem::File(_)))
+            });
+            let n_injected = fr.log.iter().filter(|e| e.injected).count();
+            if class == "entry-resolves-to-wrong-bytes" && lying_tail_probe && n_injected >= 2 {
+                run.violation(
+                    "recorded-content:stale-basis-after-tail-probe-of-complete-band-answered-not-found",
+                    format!("{} faults {:?}: {detail}", sc.desc, fr.log.iter().filter(|e| e.injected).map(|e| e.brief()).collect::<Vec<_>>()),
+                    replay.clone(),
+                );
+            } else {
+                viol("recorded-content", &class, detail);
+            }
             return false;
         }
     }
